@@ -149,16 +149,32 @@ def stream_small(ctx, rng, n):
         ctx.case(('title', s), nontrivial=bool(s), tags=['names:title'])
         if real != rep:
             ctx.disagree('names', {'stream': 'title', 'name': s}, rep, real)
-    creds = [(rc.gen_value(rng, True), rc.gen_value(rng, True)) for _ in range(n)]
-    creds += [('u', 'p'), ('', ''), ('é', '€'), ('\udc80', 'x'), ('a:b', 'c')]
+    from wpull.protocol.http.web import WebSession
+    from wpull.protocol.http.request import Request as _Request
+    import urllib.parse as _up
+    creds = [(rc.gen_value(rng, True) or 'u', rc.gen_value(rng, True) or 'p') for _ in range(n)]
+    creds += [(_up.unquote(rc.gen_long_cred(rng, 20, 150)), _up.unquote(rc.gen_long_cred(rng, 20, 150))) for _ in range(n // 3 + 5)]
+    creds += [('u', 'p'), ('é', '€'), ('\udc80', 'x'), ('a:b', 'c'), ('u' * 40, 'p' * 17), ('u' * 40, 'p' * 16), ('x' * 200, 'y' * 200)]
     reps = ctx.model.ask(['request auth %s %s' % (enc(u), enc(p)) for u, p in creds])
     for (u, p), rep in zip(creds, reps):
-        real = 'Basic ' + base64.b64encode('{}:{}'.format(u, p).encode('utf-8', 'replace')).decode('utf-8')
-        ctx.case(('auth', u, p), tags=['names:auth'])
+        # the REAL WebSession._add_basic_auth_header on a request with that login
+        req = _Request('http://h.example/')
+        req.username, req.password = u, p
+        WebSession._add_basic_auth_header(types.SimpleNamespace(), req)
+        real = req.fields.get('Authorization') or ''
+        ctx.case(('auth', u, p), tags=['names:auth', 'names:auth-long' if len(u) + len(p) >= 57 else 'names:auth-short'])
+        case = {'stream': 'auth', 'user': u, 'password': p}
         if enc(real) != rep:
-            ctx.disagree('names', {'stream': 'auth', 'user': u, 'password': p}, rep, enc(real))
+            ctx.disagree('names', case, rep, enc(real))
         if '\r' in real or '\n' in real:
-            ctx.fail('request-shape', '_add_basic_auth_header', {'stream': 'auth', 'user': u, 'password': p}, 'line break in %r' % real)
+            ctx.fail('request-shape', '_add_basic_auth_header', case, 'line break inside the Authorization value %r' % real)
+        want = '{}:{}'.format(u, p).encode('utf-8', 'replace')
+        try:
+            got = base64.b64decode(real[6:], validate=True) if real.startswith('Basic ') else None
+        except Exception:
+            got = None
+        if got != want:
+            ctx.fail('credentials-garbled', '_add_basic_auth_header', case, 'Authorization %r does not decode to the credentials' % real[:120])
     urls = [rc.gen_url(rng) for _ in range(n)]
     infos = [(u, rc.parse_url(u)) for u in urls]
     infos = [(u, i) for u, (k, i) in infos if k == 'url']
@@ -171,23 +187,40 @@ def stream_small(ctx, rng, n):
         if i.hostname_with_port != rc.expected_host(i):
             ctx.fail('host-mismatch', 'URLInfo.hostname_with_port', {'stream': 'hostport', 'url': u},
                      '%r vs %r' % (i.hostname_with_port, rc.expected_host(i)))
-    # referrer handling of the processor
-    from wpull.processor.web import WebProcessorSession
-    from wpull.protocol.http.request import Request
+    stream_referer(ctx, gen_referer_cases(rng, n))
+
+
+def gen_referer_cases(rng, n):
     cases = []
     for _ in range(n):
         k, child = rc.parse_url(rc.gen_url(rng, simple=True))
-        k2, parent = rc.parse_url(rc.gen_url(rng))
+        if rng.random() < 0.4:
+            purl = 'http%s://pu%d:%s@%s/dir/page?x=1' % (rng.choice(['', 's']), rng.randrange(100), rng.choice(['secret', 'pw%40x', 'p%3Aq']) + str(rng.randrange(1000)),
+                                                         rng.choice(CHAIN_HOSTS[:6]))
+        else:
+            purl = rc.gen_url(rng)
+        k2, parent = rc.parse_url(purl)
         if k != 'url' or k2 != 'url':
             continue
         pre = rng.choice([None, None, '', 'http://preset.example/'])
-        cases.append((child, rng.choice([parent.url, parent.url, None, '']), pre))
+        cases.append({'stream': 'referer', 'child': child.url, 'parent': rng.choice([parent.url, parent.url, parent.url, None, '']), 'preset': pre})
+    return cases
+
+
+def stream_referer(ctx, cases):
+    """WebProcessorSession._populate_common_request: referrer of a child request from the parent URL of the record"""
+    from wpull.processor.web import WebProcessorSession
+    from wpull.protocol.http.request import Request
+    from wpull.url import URLInfo
     lines = []
-    for child, parent, pre in cases:
-        pairs = [('User-Agent', 'ua')] + ([('Referer', pre)] if pre is not None else [])
-        lines.append('request referer %s %s %s' % (rc.fields_token(pairs), enc(parent or ''), enc(child.scheme)))
+    for c in cases:
+        child = URLInfo.parse(c['child'])
+        pairs = [('User-Agent', 'ua')] + ([('Referer', c['preset'])] if c['preset'] is not None else [])
+        lines.append('request referer %s %s %s' % (rc.fields_token(pairs), enc(c['parent'] or ''), enc(child.scheme)))
     reps = ctx.model.ask(lines)
-    for (child, parent, pre), rep in zip(cases, reps):
+    for c, rep in zip(cases, reps):
+        child = URLInfo.parse(c['child'])
+        parent, pre = c['parent'], c['preset']
         req = Request(child.url)
         req.fields['User-Agent'] = 'ua'
         if pre is not None:
@@ -201,14 +234,26 @@ def stream_small(ctx, rng, n):
         for nme, v in req.fields.get_all():
             flat += [nme, v]
         real = rc.enc_lists(flat)
-        ctx.case(('referer', child.url, parent, pre), tags=['referer:' + ('set' if req.fields.get('Referer') else 'none')])
-        if real != rep:
-            ctx.disagree('referer', {'stream': 'referer', 'child': child.url, 'parent': parent, 'preset': pre}, rep, real)
         ref = req.fields.get('Referer')
+        pinfo = URLInfo.parse(parent) if parent else None
+        tags = ['referer:' + ('set' if ref else 'none')]
+        if pinfo is not None and (pinfo.username or pinfo.password):
+            tags.append('referer:parent-with-userinfo')
+        ctx.case(('referer', child.url, parent, pre), tags=tags)
+        if real != rep:
+            ctx.disagree('referer', c, rep, real)
         if ref and (parent or '').startswith('https://') and child.scheme == 'http' and ref == parent:
-            ctx.fail('referrer-leak', '_add_referrer', {'stream': 'referer', 'child': child.url, 'parent': parent},
-                     'https referrer sent to http URL')
-
+            ctx.fail('referrer-leak', '_add_referrer', c, 'https referrer sent to http URL')
+        if ref and not pre and pinfo is not None and (pinfo.username or pinfo.password):
+            # credentials of the referring page's host must not travel in ANY field to the linked host
+            netloc = urllib.parse.urlsplit(ref).netloc
+            secrets = [x for x in (pinfo.password, pinfo.username) if x]
+            from wpull.url import normalize_password, normalize_username
+            forms = set(secrets) | {normalize_password(x) for x in secrets} | {normalize_username(x) for x in secrets}
+            # short secrets ('p') occur in host names by chance: judge those by the authority only
+            if '@' in netloc or any(len(f) >= 5 and f in ref for f in forms):
+                ctx.fail('cross-host-credentials', '_add_referrer', c,
+                         'Referer %r (request to %s) carries the user-info of the referring page %r' % (ref, child.hostname_with_port, parent))
 
 # ------------------------------------------------------------------ session
 CHAIN_HOSTS = ['a.example', 'b.example', 'sub.a.example', 'c.test', '10.0.0.5', '[::1]', 'a.example:8080', 'b.example:81']
@@ -225,6 +270,8 @@ def gen_location(rng, uid, http_only=False):
         ui = ''
         if rng.random() < 0.2:
             ui = 'lu%d:lp%d@' % (uid, uid)
+            if rng.random() < 0.4:
+                ui = 'lu%d%s:lp%d%s@' % (uid, rc.gen_long_cred(rng, 20, 90), uid, rc.gen_long_cred(rng, 20, 90))
         return ('%s://%s%s/p%d%s' % (scheme, ui, host, uid, rng.choice(['', '?k=%d' % uid, '/x y', '/%0D%0AHost:%20evil']))).encode()
     if r < 0.65:
         return rng.choice(['/r%d', 'rel%d', '?q=%d', '../up%d', './%d', '/a b/%d', '/é%d']) .__mod__(uid).encode('latin-1')
@@ -271,6 +318,8 @@ def gen_chain_case(rng, proxy=False):
     login = None
     if rng.random() < 0.4:
         login = ('GU', 'GP')
+        if rng.random() < 0.4:
+            login = ('GU' + urllib.parse.unquote(rc.gen_long_cred(rng, 20, 100)), 'GP' + urllib.parse.unquote(rc.gen_long_cred(rng, 20, 100)))
     method, body = 'GET', None
     if rng.random() < 0.15:
         method = 'POST'      # no body: a replayed body is the wire engine's business (C08), the method is what matters here
@@ -394,8 +443,8 @@ def check_session_case(ctx, case):
                     ok_sources.add(ui)
                     if login:
                         ok_sources.add((ui[0] or login[0], ui[1] or login[1]))
-                if up not in ok_sources:
-                    owner = userinfo_src.get(up)
+                if up not in {'%s:%s' % src for src in ok_sources}:
+                    owner = [h for ui, h in userinfo_src.items() if '%s:%s' % ui == up]
                     ctx.fail('cross-host-credentials', where, case,
                              'hop %d to %s carries credentials %r that belong to %r (head %r)' % (k, hvals, up, owner, head[:300]))
             if n.lower() == 'cookie':
@@ -448,7 +497,9 @@ def replay(ctx, case, kind=None, where=None):
         stream_prep2(ctx, [(case['url'], case['method'], case['version'], [tuple(p) for p in case['pairs']], case['full1'], case['full2'])])
     elif s == 'session':
         check_session_case(ctx, case)
-    elif s in ('title', 'auth', 'hostport', 'referer'):
+    elif s == 'referer':
+        stream_referer(ctx, [case])
+    elif s in ('title', 'auth', 'hostport'):
         stream_small(ctx, ctx.subrng('replay'), 50)
     else:
         raise Infra('unknown replay stream %r' % s)
